@@ -111,7 +111,9 @@ class Mutator:
                     "u": u,
                     "x": x,
                     "logl": logl,
-                    "blobs": blobs,
+                    # Blobs are only tracked when blobs_dtype is configured: storing them here
+                    # otherwise left stale warm-up blobs in the state that sample() returns
+                    "blobs": blobs if self.have_blobs else None,
                     "assignments": assignments,
                     "calls": calls,
                     "steps": 1,
